@@ -161,7 +161,7 @@ class Ctx:
         """R: run a Gen_* configuration; every behaviour is printed by the Emit
         pseudo-invariant as <<"BEHAVIOUR", x>>. Returns the list of x (strings,
         JSON-decoded when they look like JSON)."""
-        d = self._specdir("gen-" + module)
+        d = self._specdir("gen-" + module + "-" + (cfg or ""))
         if overrides:
             cfgp = os.path.join(d, cfg or module + ".cfg")
             txt = open(cfgp).read()
